@@ -485,3 +485,25 @@ class columns_sizing:
         yield "as-documented", implies(both(n > 0, ok, neg(nothing)), both(eq(hb, box), eq(hf, flow), eq(hx, fixed)))
 
     loops = {0: Loop(invariant=_csz_loop)}
+
+
+# ==================================================================================================== GridFlow.sizing
+from contracts.C08_gridflow import GF, GINL, GRIDFLOW, gf_ri, n_cells  # noqa: E402
+
+
+@contract(GF + "GridFlow.sizing", property="C01", inline=GINL, replayable=False, call_real=sizing_call_real)
+class gridflow_sizing:
+    """FLOW always; FIXED exactly when there is a cell (the natural width is that of all cells in one row: pack(())
+    -- contracts/C08_gridflow.py: gf_pack -- answers only then); never BOX."""
+
+    self_shape = GRIDFLOW
+    params = {}
+    result = Custom(_fresh_sizing, "set of sizing modes")
+    raises = ()
+    invariant = staticmethod(gf_ri)
+
+    def ensures(old, s, a, result):
+        yield "flow-always", _has(result, FLOW)
+        yield "fixed-exactly-with-a-cell", eq(_has(result, FIXED), n_cells(old) > 0)
+        yield "never-box", neg(_has(result, BOX))
+        yield "frame", n_cells(s) == n_cells(old)
